@@ -16,7 +16,7 @@ func init() {
 		ID:        "C11",
 		Level:     "model_checking",
 		Technique: "bounded exhaustive exploration of error-container operation sequences and of table-building histories with failing callbacks, on the real code, compared after every step with a reference model of who holds which error",
-		Rule: "family container: all sequences of {AddError(e), AddError(nil), AddErrorList(l) for l in nil,[],[e],[nil],[e,nil],[nil,e],[e,nil,e'], each followed or not by mutation of l} to depth 4 (thorough 6) on a constructed, a zero-value and a nil container; " +
+		Rule: "family container: all sequences of {AddError(e), AddError(nil), AddErrorList(l) for l in nil,[],[e],[nil],[e,nil],[nil,e],[e,nil,e'], each followed or not by mutation of l} to depth 4 (thorough 6) on a constructed, a zero-value and a nil container, starting empty or with 9, 10 or 11 errors already held (initial capacity 10); " +
 			"family routing: histories build(<=2 ops) ; register a failing callback (returning a serial-carrying error or the zero value of a value-type error) on any supported (owner kind x time x target) and/or record a direct error on the table/a row ; build(<=2 ops) ; (thorough: a late registration if none was made before) ; 0-2 render passes (InvokeRenderCallbacks or a CSV render) - " +
 			"build ops include rows built detached then attached, Row.Add before and after attach, separators and adding a cell to a separator; the oracle runs after every step; " +
 			"non-trivial = a history in which at least one error was raised; distinct by reference state (who holds which serials)",
@@ -93,6 +93,18 @@ func runC11(x *X) {
 		next := func() error { serial++; return serialErr{serial, "direct"} }
 		var model []int
 		raised := false
+		// optionally start close to the container's initial capacity of 10 errors
+		if pre := []int{0, 9, 10, 11}[c.Choose(4)]; pre > 0 {
+			c.Logf("%d x ec.AddError(e)", pre)
+			for i := 0; i < pre; i++ {
+				e := next()
+				ec.AddError(e)
+				if ec != nil {
+					model = append(model, serial)
+				}
+			}
+			tags = append(tags, "ten_or_more_errors")
+		}
 		for step := 0; step < depth; step++ {
 			op := c.Choose(4)
 			if op == 0 {
